@@ -9,6 +9,7 @@
 From Coq Require Import Reals Lra QArith ZArith List Bool Arith.
 From Coq Require String.
 From PG Require Import Lib.Num Lib.Py Charact.Kernel Charact.KernelTheorems Charact.KernelCache.
+From PG Require Charact.BsplineLib Gen.BsplineGen Charact.Bspline.
 Import ListNotations.
 Open Scope R_scope.
 
@@ -141,6 +142,25 @@ Theorem cache_keyed_by_file_name_refuted :
 Proof. exact cache_keyed_by_name_refuted. Qed.
 Print Assumptions cache_keyed_by_file_name_refuted.
 
+
+(* math_utilities.bspline, open curve (GENERATED integer bookkeeping, Gen/BsplineGen.v, tools/py2v_bspline.py): for a kernel of ANY number
+   of pore widths count >= 1 and ANY requested spline order d >= 1 (order 0 returns the data as they are) the degree handed to scipy's splev
+   is min(d, count-1) (the order asked for unless the points do not suffice; at least 1 from two widths on), the knot vector has
+   count + degree + 1 entries, all inside [0, count - degree], and the parameter range [0, count - degree] on which the spline is sampled
+   is NOT degenerate (a degenerate one makes splev return 0/0 = NaN for every width, distribution and cumulative volume).
+   partial: what splev returns on that well-formed input is scipy's (oracle, validated on the outputs on every run) *)
+Theorem bspline_knot_vector_well_formed_partial : forall count d : Z,
+  (1 <= count)%Z -> (1 <= d)%Z ->
+  let k := BsplineGen.bspline_open_degree count d in
+  let kv := BsplineGen.bspline_open_knots count k in
+  d <> BsplineGen.bspline_identity_degree /\
+  k = Z.min d (count - 1) /\ (0 <= k)%Z /\ ((2 <= count)%Z -> (1 <= k)%Z) /\
+  Z.of_nat (length kv) = (count + k + 1)%Z /\
+  Forall (fun t => (0 <= t <= BsplineGen.bspline_open_range_end count k)%Z) kv /\
+  (0 < BsplineGen.bspline_open_range_end count k)%Z.
+Proof. exact Bspline.bspline_plan_well_formed_lemma. Qed.
+Print Assumptions bspline_knot_vector_well_formed_partial.
+
 Example solver_contract_satisfiable :
   exists solver : list (list R) -> list R -> res (list R),
     (forall KP l x, solver KP l = Ok x -> length x = length KP /\ Forall (Rle 0) x) /\
@@ -152,3 +172,7 @@ Example range_contract_satisfiable :
 Proof. exact ranged_contract. Qed.
 Example increasing_widths_satisfiable : widths_increasing (map fst demo_kernel).
 Proof. exact demo_widths. Qed.
+Example bspline_small_kernels_evaluated :
+  map (fun cd : Z * Z => BsplineGen.bspline_open_knots (fst cd) (BsplineGen.bspline_open_degree (fst cd) (snd cd))) [(1, 3); (2, 2); (2, 3); (3, 3); (4, 3)]%Z
+  = [[0; 1]; [0; 0; 1; 1]; [0; 0; 1; 1]; [0; 0; 0; 1; 1; 1]; [0; 0; 0; 0; 1; 1; 1; 1]]%Z.
+Proof. exact Bspline.bspline_small_kernels. Qed.
